@@ -21,10 +21,12 @@ struct Spec {
     std::map<std::string, size_t> shape;                /* variable member path -> element count */
     size_t deflen = 0;
     int pattern = rv::P_UNIQUE;
+    bool overlong = false;                              /* a payload longer than its length field can represent */
     std::string label() const {
         std::ostringstream o;
         o << cls->name;
         if (code) o << "#" << code;
+        if (overlong) o << " OVERLONG";
         static const char * pn[] = {"unique", "00", "ff", "80/7f", "sparse"};
         o << " fill=" << pn[pattern];
         for (auto & s : sel) o << " " << s.first << "=" << s.second;
@@ -113,6 +115,7 @@ inline ClassVars discover(const refl::ClassInfo & c) {
 }
 
 struct Options {
+    bool overlong = false;   /* also payloads just beyond what the paired length field can represent (framing must still be consistent) */
     bool big = false;        /* include the large one-at-a-time lengths (65535, 65536, 300 KiB) */
     size_t container = 0x20000;
     int max_product_vars = 4;
@@ -152,6 +155,18 @@ inline std::vector<Spec> universe(const Options & opt, const std::string & only_
                     shapes.push_back(sh);
                 }
         }
+        std::vector<size_t> overlong_from;   /* index of the first over-long shape */
+        size_t first_overlong = shapes.size();
+        if (opt.overlong)
+            for (size_t i = 0; i < k; i++) {
+                auto it = cv.max_len.find(cv.var_paths[i]);
+                if (it == cv.max_len.end() || it->second >= 0x1000000ull) continue;   /* only 8- and 16-bit length fields */
+                for (size_t extra : {1, 2, 3, 4, 4466}) {
+                    std::map<std::string, size_t> sh;
+                    for (size_t j = 0; j < k; j++) sh[cv.var_paths[j]] = (j == i) ? (size_t)it->second + extra : 1;
+                    shapes.push_back(sh);
+                }
+            }
         for (uint32_t code : codes)
             for (auto & alt : alts)
                 for (size_t si = 0; si < shapes.size(); si++)
@@ -166,6 +181,7 @@ inline std::vector<Spec> universe(const Options & opt, const std::string & only_
                         s.sel = alt;
                         s.shape = shapes[si];
                         s.pattern = p;
+                        s.overlong = si >= first_overlong;
                         out.push_back(s);
                     }
     }
